@@ -54,7 +54,8 @@ def check_case(ctx, case):
     ents = entities(r[1])
     if len(ents) != len(exp):
         ctx.violation("table_count", case, {"observed": len(ents), "expected": len(exp),
-                                            "observed_names": [e.get("table_name") if isinstance(e, dict) else None for e in ents]})
+                                            "observed_names": [e.get("table_name") if isinstance(e, dict) else None for e in ents]},
+                      kf="C01:signed-decimal-default" if case.get("feature") == "signed_decimal" and not ents else None)
         return False
     ok = True
     for ent, e in zip(ents, exp):
@@ -66,6 +67,22 @@ def check_case(ctx, case):
         ctx.obs["columns_compared"] += len(e["columns"])
     ctx.obs["tables_compared"] += len(exp)
     return ok
+
+
+def signed_decimal_cases(ctx):
+    """DEFAULT -1.5 / +2.5: the lexer splits a signed decimal at its point and the whole table is lost on the pinned tree
+    (listed known finding); anything else than 'table lost' or the correct result is an ordinary violation"""
+    from vf.gen.vocab import SIGNED_DECIMALS
+    for j, d in enumerate(SIGNED_DECIMALS):
+        for pos in (0, 1, 2):
+            if not ctx.mine(j * 3 + pos):
+                continue
+            cols = [S.make_column("c%d" % q, (["int"], None), []) for q in range(3)]
+            cols[pos] = S.make_column("amt", (["decimal"], [10, 2]), [{"k": "default", "toks": S.T(d), "exp": d}, {"k": "notnull"}])
+            t = {"schema": None, "name": "t", "prefix": "plain", "items": [("col", c) for c in cols]}
+            case = make_case([t], None, ctx.rng, "signed_decimal")
+            case["feature"] = "signed_decimal"
+            yield case
 
 
 def exhaustive_cases(ctx):
@@ -88,6 +105,9 @@ def exhaustive_cases(ctx):
 
 
 def run_shard(ctx):
+    for case in signed_decimal_cases(ctx):
+        check_case(ctx, case)
+        ctx.obs["signed_decimal_cases"] += 1
     rng = ctx.rng
     n_exh = 0
     for case in exhaustive_cases(ctx):
